@@ -322,6 +322,37 @@ static void k_arc_rev(void) {         /* rows 'v n' -> sum read through the n+1 
   }
 }
 
+/* ---- kind 12: a vector BUILT HERE (malloc'ed buffer, reserve/drop functions of this file); Rust pushes to it and releases it -------------------- */
+static int v_reserves, v_drops; static uintptr_t v_drop_len, v_drop_cap; static void *v_drop_data; static void *v_cur_data; static uintptr_t v_cur_cap;
+static uintptr_t c_vec_reserve(struct CVecV *v, uintptr_t additional) {
+  v_reserves++;
+  if (v->data != v_cur_data || v->capacity != v_cur_cap) fail("c_built_vec:_reserve_fn_called_on_a_vector_whose_buffer_or_capacity_is_not_the_one_this_side_handed_out");
+  uintptr_t need = v->len + additional, ncap = v->capacity * 2 > need ? v->capacity * 2 : need; if (ncap < 4) ncap = 4;
+  uint64_t *nb = malloc(ncap * sizeof(uint64_t)); if (v->len) memcpy(nb, v->data, v->len * sizeof(uint64_t)); free(v->data);      /* always MOVES */
+  v->data = nb; v->capacity = ncap; v_cur_data = nb; v_cur_cap = ncap; return ncap;
+}
+static void c_vec_drop(void *data, uintptr_t len, uintptr_t cap) { v_drops++; v_drop_data = data; v_drop_len = len; v_drop_cap = cap; free(data); }
+extern uint64_t rt_vec_rev(struct CVecV v, size_t n, uint64_t base);
+static void k_vec_rev(void) {          /* rows 'init n base' -> checksum of the contents ; reserve_fn runs > 0 ; len handed to drop_fn */
+  for (int r = 0; r < nrows; r++) {
+    size_t init = (size_t)rowbuf[r][0] % 64, n = (size_t)(rowlen[r] > 1 ? rowbuf[r][1] : 0) % 2000; uint64_t base = (uint64_t)(rowlen[r] > 2 ? rowbuf[r][2] : 1);
+    struct CVecV v; v.capacity = init; v.len = init; v.data = malloc((init ? init : 1) * sizeof(uint64_t));
+    for (size_t i = 0; i < init; i++) ((uint64_t *)v.data)[i] = 1000 + i;
+    v.drop_fn = c_vec_drop; v.reserve_fn = (void *)c_vec_reserve;
+    v_reserves = v_drops = 0; v_cur_data = v.data; v_cur_cap = v.capacity; v_drop_len = v_drop_cap = 0; v_drop_data = 0;
+    uint64_t sum = rt_vec_rev(v, n, base);
+    if (v_drops != 1) fail("c_built_vec:_drop_fn_ran_another_number_of_times_than_once");
+    else {
+      if (v_drop_len != init + n) fail("c_built_vec:_drop_fn_was_not_handed_the_vector's_length");
+      if (v_drop_data != v_cur_data || v_drop_cap != v_cur_cap) fail("c_built_vec:_drop_fn_was_not_handed_the_buffer_and_capacity_reserve_fn_produced");
+    }
+    if (n > 0 && v_reserves == 0) fail("c_built_vec:_the_vector_grew_without_reserve_fn");
+    uint64_t want = 0; for (size_t i = 0; i < init; i++) want = want * 31 + (1000 + i); for (size_t i = 0; i < n; i++) want = want * 31 + (base + i);
+    if (sum != want) fail("c_built_vec:_contents_after_the_pushes_differ");
+    row_begin(); row_put((int64_t)(init + n)); row_put((int64_t)v_drop_len); row_put(v_drops); row_end();
+  }
+}
+
 int main(void) {
   static char line[1 << 20];
   while (fgets(line, sizeof line, stdin)) {
@@ -335,7 +366,7 @@ int main(void) {
     fails[0] = 0; first_row = 1; { static int64_t d[4096]; rt_take_drops(d, 4096); }
     switch (kind) {
       case 1: k_box(); break; case 2: k_arc(); break; case 3: k_vec((int)elem); break; case 4: k_cb((int)elem); break;
-      case 5: k_it((int)elem); break; case 6: k_slice((int)elem); break; case 7: k_tags(); break; case 8: k_sizes(); break; case 9: k_cb_rev((int)elem); break; case 10: k_it_rev((int)elem); break; case 11: k_arc_rev(); break;
+      case 5: k_it((int)elem); break; case 6: k_slice((int)elem); break; case 7: k_tags(); break; case 8: k_sizes(); break; case 9: k_cb_rev((int)elem); break; case 10: k_it_rev((int)elem); break; case 11: k_arc_rev(); break; case 12: k_vec_rev(); break;
       default: row_begin(); row_put(-3); row_end();
     }
     printf(" # fails=%s\n", fails[0] ? fails : "-");
